@@ -6,12 +6,12 @@
 (* canonical with exact owner / RRset groups.                                *)
 EXTENDS SortedRecords, Json, IOUtils
 
-Rec == ndJsonDeserialize(IOEnv.TRACE)
+Tr == ndJsonDeserialize(IOEnv.TRACE)
 
 VARIABLES l, coll
 tvars == <<l, coll>>
 
-IsEv(e) == l <= Len(Rec) /\ Rec[l].ev = e /\ l' = l + 1
+IsEv(e) == l <= Len(Tr) /\ Tr[l].ev = e /\ l' = l + 1
 TInit == l = 1 /\ coll = <<>>
 
 LowRecs(c) == [i \in 1..Len(c) |-> [c[i] EXCEPT !.n = LowerName(@)]]
@@ -23,23 +23,23 @@ Agrees(e, c) ==
   /\ e.rrsets = [i \in 1..Len(Rrsets(c)) |-> Len(Rrsets(c)[i])]
 Do(e, x, res) == x.res = res /\ coll' = x.coll /\ Agrees(e, x.coll)
 
-T_Reset == IsEv("from") /\ LET e == Rec[l] IN Do(e, FromVec(e.batch), "ok")
-T_Extend == IsEv("extend") /\ LET e == Rec[l] IN Do(e, Extend(coll, e.batch), "ok")
-T_Insert == IsEv("insert") /\ LET e == Rec[l] x == Insert(coll, e.r)
+T_Reset == IsEv("from") /\ LET e == Tr[l] IN Do(e, FromVec(e.batch), "ok")
+T_Extend == IsEv("extend") /\ LET e == Tr[l] IN Do(e, Extend(coll, e.batch), "ok")
+T_Insert == IsEv("insert") /\ LET e == Tr[l] x == Insert(coll, e.r)
                               IN x.res.ok = e.ok /\ coll' = x.coll /\ Agrees(e, x.coll)
-T_RemoveAll == IsEv("remove_all") /\ LET e == Rec[l] IN Do(e, RemoveAll(coll, e.n, e.t), e.res)
+T_RemoveAll == IsEv("remove_all") /\ LET e == Tr[l] IN Do(e, RemoveAll(coll, e.n, e.t), e.res)
 \* remove_first with a single match only (which of several is removed is the
 \* subject of D_remove_first_is_last and of the S->I cases)
-T_RemoveFirst == IsEv("remove_first") /\ LET e == Rec[l] IN Do(e, RemoveFirst(coll, e.n, e.t), e.res)
+T_RemoveFirst == IsEv("remove_first") /\ LET e == Tr[l] IN Do(e, RemoveFirst(coll, e.n, e.t), e.res)
 
 TNext == T_Reset \/ T_Extend \/ T_Insert \/ T_RemoveAll \/ T_RemoveFirst
 TSpec == TInit /\ [][TNext]_tvars
 
 Accepted ==
   LET d == TLCGet("stats").diameter
-  IN IF d = Len(Rec) + 1 THEN TRUE
-     ELSE /\ PrintT("TRACE_REJECTED " \o ToJson([matched |-> d - 1, total |-> Len(Rec),
-                      event |-> IF d <= Len(Rec) THEN [ev |-> Rec[d].ev, seq |-> Rec[d].seq]
+  IN IF d = Len(Tr) + 1 THEN TRUE
+     ELSE /\ PrintT("TRACE_REJECTED " \o ToJson([matched |-> d - 1, total |-> Len(Tr),
+                      event |-> IF d <= Len(Tr) THEN [ev |-> Tr[d].ev, seq |-> Tr[d].seq]
                                 ELSE [ev |-> "none"]]))
           /\ FALSE
 =============================================================================
